@@ -39,11 +39,17 @@ def gen_input_from(rng, TABLES, COLUMNS, QNAMES, benign):
     lines = ["CREATE TYPE status_t AS ENUM ('open', 'closed', 'in-progress', 'in progress');"]
     if rng.random() < 0.2:
         lines.append("CREATE TYPE %s AS ENUM ('a', 'A', 'a-b', 'a_b');" % rng.choice(["status", "kind", "user_role"]))
+    coltypes = list(COLTYPES)
+    if rng.random() < 0.25:
+        # an enum outside the default schema: its Go name is prefixed with the schema's; a rename may hit any of the keys
+        lines.append("CREATE SCHEMA support;")
+        lines.append("CREATE TYPE support.status AS ENUM ('new', 'done');")
+        coltypes += ["support.status", "support.status NOT NULL", "support.status"]
     cols = {}
     for t in tabs:
         cs = ["id"] + rng.sample(COLUMNS[1:], rng.randint(1, 4))
         cols[t] = cs
-        lines.append("CREATE TABLE %s (%s);" % (q(t), ", ".join("%s %s" % (q(c), rng.choice(COLTYPES)) for c in cs)))
+        lines.append("CREATE TABLE %s (%s);" % (q(t), ", ".join("%s %s" % (q(c), rng.choice(coltypes)) for c in cs)))
     queries = []
     names = rng.sample(QNAMES, rng.randint(1, 4))
     for nm in names:
@@ -84,7 +90,7 @@ def gen_input_from(rng, TABLES, COLUMNS, QNAMES, benign):
                                         {"go_type": "string", "db_type": "uuid"},
                                         {"go_type": {"import": "database/sql", "package": "orm", "type": "NullInt64"}, "db_type": "pg_catalog.int8", "nullable": True}])]
     if rng.random() < 0.15:
-        cfg["rename"] = {rng.choice(["id", "name", "type"]): rng.choice(["Ident", "Type", "Err"])}
+        cfg["rename"] = {rng.choice(["id", "name", "type", "support_status", "status", "support", "status_t"]): rng.choice(["Ident", "Type", "Err", "TicketState"])}
     if "emit_json_tags" in flags and rng.random() < 0.5:
         pkg["json_tags_case_style"] = rng.choice(["camel", "pascal", "snake", "none"])
     if rng.random() < 0.15:
